@@ -24,7 +24,7 @@ BOUNDS = {
              "virtual evidence; labeling deviations (5 int + 5 str relabelings, 5 state styles, multi/tuple names) at "
              "deviation bound 1 on 50 models; 31 iso classes of 4-node DAGs, |Q|<=2,|E|<=2",
     "thorough": "core with 3-element alphabet (18009 nets on 3 nodes); all 543 4-node DAGs; all relabelings x styles on "
-                "the 2-element core families; virtual evidence everywhere",
+                "the 2-element core families; virtual evidence everywhere; the 302 classes of 5-node DAGs with |Q|<=2, |E|<=1",
 }
 EXHAUSTIVE = {"quick": True, "thorough": True}
 ASSUMPTIONS = ["P(evidence)>0 decided by the reference", "virtual evidence needs string variable names (library builds '__'+name)"]
